@@ -217,14 +217,408 @@ theorem deltas_error_iff (c : Deltas α) (x : Tensor α) (axis : Int) (hr : x.sh
         normAxis c.targetAxis (if c.concatenate then x.shape.length else x.shape.length + 1) = none) :=
   Deltas.apply_error_iff c x axis hr e
 
-/-- Purity.  The model is a function of `(configuration, features, axis)`; `in_place` is not an input of
-it (the code never reads it) and the input tensor is a value: whatever `apply` returns, `x` is what it
-was.  Stated as: two calls on the same input agree and the input compares equal to itself afterwards.
-NumPy's aliasing is outside the model; the harness checks input-unchanged on every run. -/
-theorem deltas_pure (c : Deltas α) (x : Tensor α) (axis : Int) :
-    ∀ r₁ r₂, c.apply x axis = r₁ → c.apply x axis = r₂ → r₁ = r₂ ∧ x = x := by
-  intro r₁ r₂ h₁ h₂; exact ⟨h₁.symm.trans h₂, rfl⟩
+/-- Purity.  `applyIO` returns `(result, the caller's array after the call)`; no statement of
+`Deltas.apply` stores into `features` and `in_place` is never read: the array is unchanged and the result
+does not depend on `in_place`.  (Value semantics; NumPy's aliasing is checked by the harness on every run.) -/
+theorem deltas_pure (c : Deltas α) (x : Tensor α) (axis : Int) (inPlace : Bool) :
+    (Deltas.applyIO c x axis inPlace).2 = x ∧
+    (Deltas.applyIO c x axis inPlace).1 = (Deltas.applyIO c x axis false).1 := ⟨rfl, rfl⟩
 
 end DeltasND
+
+/-! ## the padding modes (what `ext` is, mode by mode, at every integer position) -/
+section Ext
+variable {α : Type} [Inhabited α]
+
+/-- inside the lane every mode returns the lane itself -/
+theorem ext_inside (l r : Nat) (mode : PadMode α) (x : List α) (i : Int)
+    (h : 0 ≤ i ∧ i < (x.length : Int)) : Model.ext l r mode x i = x.getD i.toNat default :=
+  Stack.ext_inside l r mode x i h
+
+/-- `edge`: positions are clamped to `[0, T-1]` (Kaldi's frame clamping) -/
+theorem ext_edge (l r : Nat) (x : List α) (i : Int) :
+    Model.ext l r .edge x i
+      = x.getD (if i < 0 then 0 else if i ≥ (x.length : Int) then x.length - 1 else i.toNat) default := by
+  unfold Model.ext
+  by_cases h : 0 ≤ i ∧ i < (x.length : Int)
+  · simp only [h, and_self, if_true]
+    rw [if_neg (by omega), if_neg (by omega)]
+  · simp only [h, if_false]
+    by_cases hneg : i < 0
+    · simp only [hneg, if_true]
+    · simp only [hneg, if_false]
+      rw [if_pos (by omega)]
+
+/-- `constant`: `constant_values[0]` on the left, `constant_values[1]` on the right -/
+theorem ext_constant (l r : Nat) (cl cr : α) (x : List α) (i : Int) :
+    (i < 0 → Model.ext l r (.constant cl cr) x i = cl) ∧
+    ((x.length : Int) ≤ i → Model.ext l r (.constant cl cr) x i = cr) := by
+  constructor
+  · intro h
+    unfold Model.ext
+    simp only [show ¬ (0 ≤ i ∧ i < (x.length : Int)) by omega, if_false, h, if_true]
+  · intro h
+    unfold Model.ext
+    simp only [show ¬ (0 ≤ i ∧ i < (x.length : Int)) by omega, if_false,
+      show ¬ i < 0 by omega]
+
+/-- `wrap`: periodic with period `T`, at every position -/
+theorem ext_wrap (l r : Nat) (x : List α) (i : Int) :
+    Model.ext l r .wrap x i = x.getD (i % (x.length : Int)).toNat default := by
+  unfold Model.ext
+  by_cases h : 0 ≤ i ∧ i < (x.length : Int)
+  · simp only [h, and_self, if_true]
+    rw [Int.emod_eq_of_lt h.1 h.2]
+  · simp only [h, if_false]
+
+/-- `reflect` (even): periodic with period `2(T-1)`, mirrored without repeating the edge sample;
+a single sample is repeated (NumPy's legacy behaviour) -/
+theorem ext_reflect (l r : Nat) (x : List α) (i : Int) :
+    (x.length = 1 → Model.ext l r .reflect x i = x.getD 0 default) ∧
+    (2 ≤ x.length → Model.ext l r .reflect x i =
+      x.getD (if i % (2 * ((x.length : Int) - 1)) < (x.length : Int) then i % (2 * ((x.length : Int) - 1))
+              else 2 * ((x.length : Int) - 1) - i % (2 * ((x.length : Int) - 1))).toNat default) := by
+  constructor
+  · intro h1
+    unfold Model.ext
+    by_cases h : 0 ≤ i ∧ i < (x.length : Int)
+    · simp only [h, and_self, if_true]
+      congr 1; omega
+    · simp only [h1, Nat.cast_one] at h ⊢
+      simp only [h, if_false, if_true]
+  · intro h2
+    unfold Model.ext
+    by_cases h : 0 ≤ i ∧ i < (x.length : Int)
+    · simp only [h, and_self, if_true]
+      rw [Int.emod_eq_of_lt h.1 (by omega), if_pos h.2]
+    · simp only [h, if_false]
+      rw [if_neg (by omega)]
+
+/-- `symmetric` (even): periodic with period `2T`, mirrored with the edge sample repeated -/
+theorem ext_symmetric (l r : Nat) (x : List α) (i : Int) (hT : 0 < x.length) :
+    Model.ext l r .symmetric x i =
+      x.getD (if i % (2 * (x.length : Int)) < (x.length : Int) then i % (2 * (x.length : Int))
+              else 2 * (x.length : Int) - 1 - i % (2 * (x.length : Int))).toNat default := by
+  unfold Model.ext
+  by_cases h : 0 ≤ i ∧ i < (x.length : Int)
+  · simp only [h, and_self, if_true]
+    rw [Int.emod_eq_of_lt h.1 (by omega), if_pos h.2]
+  · simp only [h, if_false]
+
+end Ext
+
+/-! ## Stack -/
+section StackProps
+variable {α : Type} [Inhabited α]
+
+omit [Inhabited α] in
+/-- `__init__` only lets `num_vectors ≥ 1` through -/
+theorem stack_new_pos (n ta : Int) (pm : Option (PadMode α)) (c : Stack α) (h : Stack.new n ta pm = .ok c) :
+    1 ≤ c.numVectors ∧ (c.numVectors : Int) = n := by
+  unfold Stack.new at h
+  by_cases hn : n < 1
+  · simp [hn] at h
+  · simp only [hn, if_false] at h
+    injection h with h
+    subst h
+    simp only
+    omega
+
+/-- The 2-D fast path (`[.copy()] [.T] [:T] .reshape(nT, nF) [.T]`) and the N-D path (strided slices
+concatenated along the feature axis) return the same tensor: `apply` equals `apply` with the
+`ndim == 2` branch deleted - for every input, both `time_axis` values, every `num_vectors`, with or
+without padding, whatever `in_place` is. -/
+theorem stack_2d_eq_nd (c : Stack α) (x : Tensor α) (axis : Int) (inPlace : Bool) (hn : 1 ≤ c.numVectors) :
+    c.apply x axis inPlace = c.applyNd x axis :=
+  Stack.apply_eq_applyNd c x axis inPlace hn
+
+/-- the same at the level of the two branches, for any rank-2 tensor reaching them -/
+theorem stack_2d_path_eq_nd_path (ip : Bool) (n ta ax nT : Nat) (x1 : Tensor α) (hrank : x1.shape.length = 2)
+    (hax : ax < 2) (hta : ta < 2) (hne : ax ≠ ta) (hn : 1 ≤ n) (hle : nT * n ≤ x1.shape.getD ta 0) :
+    Stack.path2d ip ta (nT * n) nT (x1.shape.getD ax 0 * n) x1 = Stack.pathNd n ta ax (nT * n) x1 :=
+  Stack.path2d_eq_pathNd ip n ta ax nT x1 hrank hax hta hne hn hle
+
+/-- shape of the result: `frames` along the time axis, `F · num_vectors` along the feature axis; the two
+axes are `time_axis % ndim` and `axis % ndim` (so negative values work) and must differ -/
+theorem stack_shape (c : Stack α) (x out : Tensor α) (axis : Int) (ip : Bool) (hn : 1 ≤ c.numVectors)
+    (h : c.apply x axis ip = .ok out) :
+    let ta := (c.timeAxis % (x.shape.length : Int)).toNat
+    let ax := (axis % (x.shape.length : Int)).toNat
+    x.shape.length ≠ 0 ∧ ax ≠ ta ∧ ax < x.shape.length ∧ ta < x.shape.length ∧
+    out.shape = (x.shape.set ta (Stack.frames c (x.shape.getD ta 0))).set ax
+      (x.shape.getD ax 0 * c.numVectors) ∧ out.WF := by
+  obtain ⟨hr, hne, rfl⟩ := Stack.apply_inv c x out axis ip hn h
+  exact ⟨hr, hne, emod_axis_lt _ hr, emod_axis_lt _ hr, rfl, ofFn_wf _ _⟩
+
+/-- Every element of the result.  With `F` the feature extent, the element at `idx` comes from frame
+`t = idx[ta]·n + idx[ax] / F` and feature `idx[ax] % F`:
+`out[…, t', …, v·F + f, …] = in[…, t'·n + v, …, f, …]` - the input where `t < T`, otherwise (only possible
+with a pad mode and an incomplete final run) the `np.pad` extension of that lane by `n - T % n`. -/
+theorem stack_value (c : Stack α) (x out : Tensor α) (axis : Int) (ip : Bool) (hwf : x.WF)
+    (hn : 1 ≤ c.numVectors) (h : c.apply x axis ip = .ok out) (idx : List Nat)
+    (hv : valid out.shape idx = true) :
+    let ta := (c.timeAxis % (x.shape.length : Int)).toNat
+    let ax := (axis % (x.shape.length : Int)).toNat
+    let F := x.shape.getD ax 0
+    let T := x.shape.getD ta 0
+    let t := idx.getD ax 0 / F + idx.getD ta 0 * c.numVectors
+    let src := (idx.set ax (idx.getD ax 0 % F)).set ta t
+    (t < T → valid x.shape src = true ∧ out.get idx = x.get src) ∧
+    (T ≤ t → ∃ mode, c.padMode = some mode ∧ T % c.numVectors ≠ 0 ∧
+        t < T + (c.numVectors - T % c.numVectors) ∧
+        out.get idx = some (Model.ext 0 (c.numVectors - T % c.numVectors) mode (x.lane ta src) (t : Nat))) := by
+  obtain ⟨hr, hne, rfl⟩ := Stack.apply_inv c x out axis ip hn h
+  intro ta ax F T t src
+  obtain ⟨hget0, hvsrc0, htlt0, hvx0⟩ := Stack.result_get c x axis hn hr hne idx hv
+  have hget : (ofFn ((x.shape.set ta (Stack.frames c T)).set ax (F * c.numVectors))
+      (fun idx => concatVal ((List.range c.numVectors).map fun i =>
+        (Stack.padded c ta x).sliceAxis ta i (Stack.frames c T * c.numVectors) c.numVectors) ax idx)).get idx
+      = some ((Stack.padded c ta x).val src) := hget0
+  have hvsrc : valid (Stack.padded c ta x).shape src = true := hvsrc0
+  have htlt : t < Stack.paddedLen c T := htlt0
+  have hvx : t < T → valid x.shape src = true := hvx0
+  have hta : ta < x.shape.length := emod_axis_lt _ hr
+  have hpv := Stack.padded_val c ta x src hta hvsrc
+  have hsrcta : src.getD ta 0 = t := by
+    show ((idx.set ax (idx.getD ax 0 % F)).set ta t).getD ta 0 = t
+    rw [getD_set_eq, if_pos ⟨rfl, by
+      rw [List.length_set]
+      have := valid_length hv
+      simp only [ofFn_shape, List.length_set] at this
+      omega⟩]
+  rw [hsrcta] at hpv
+  constructor
+  · intro hlt
+    have hvs := hvx hlt
+    refine ⟨hvs, hget.trans ?_⟩
+    rw [hpv, if_pos hlt]
+    exact (get_eq_some_val x hwf src hvs).symm
+  · intro hge
+    have hnlt : ¬ t < T := by omega
+    unfold Stack.paddedLen at htlt
+    cases hm : c.padMode with
+    | none =>
+      simp only [hm, Option.isSome_none, Bool.false_eq_true, false_and, if_false] at htlt
+      exact absurd htlt hnlt
+    | some mode =>
+      simp only [hm, Option.isSome_some, true_and] at htlt
+      by_cases hrem : T % c.numVectors ≠ 0
+      · rw [if_pos hrem] at htlt
+        refine ⟨mode, rfl, hrem, htlt, hget.trans ?_⟩
+        rw [hpv, if_neg hnlt, hm]
+      · rw [if_neg hrem] at htlt
+        exact absurd htlt hnlt
+
+/-- no pad mode: `T // n` frames; the incomplete final run is dropped - every element comes from an input
+frame `t < (T // n)·n ≤ T`, frames `(T // n)·n … T-1` are never read -/
+theorem stack_drop (c : Stack α) (x out : Tensor α) (axis : Int) (ip : Bool) (hn : 1 ≤ c.numVectors)
+    (hpm : c.padMode = none) (h : c.apply x axis ip = .ok out) :
+    let ta := (c.timeAxis % (x.shape.length : Int)).toNat
+    let ax := (axis % (x.shape.length : Int)).toNat
+    out.shape.getD ta 0 = x.shape.getD ta 0 / c.numVectors ∧
+    ∀ idx, valid out.shape idx = true →
+      idx.getD ax 0 / x.shape.getD ax 0 + idx.getD ta 0 * c.numVectors
+        < x.shape.getD ta 0 / c.numVectors * c.numVectors := by
+  obtain ⟨hr, hne, rfl⟩ := Stack.apply_inv c x out axis ip hn h
+  intro ta ax
+  have e1 : Stack.taOf c x = ta := rfl
+  have e2 : Stack.axOf x axis = ax := rfl
+  simp only [e1, e2] at *
+  have hta : ta < x.shape.length := emod_axis_lt _ hr
+  have hfr : Stack.frames c (x.shape.getD ta 0) = x.shape.getD ta 0 / c.numVectors := by
+    unfold Stack.frames; simp [hpm]
+  constructor
+  · show ((x.shape.set ta _).set ax _).getD ta 0 = _
+    rw [getD_set_eq, if_neg (by intro h; exact hne h.1), getD_set_eq, if_pos ⟨rfl, hta⟩, hfr]
+  · intro idx hv
+    obtain ⟨_, _, htlt, _⟩ := Stack.result_get c x axis hn hr hne idx hv
+    have hpl : Stack.paddedLen c (x.shape.getD ta 0) = x.shape.getD ta 0 := by
+      unfold Stack.paddedLen; simp [hpm]
+    -- sharper than `t < T`: t < frames * n
+    have hax : ax < x.shape.length := emod_axis_lt _ hr
+    have hj : idx.getD ax 0 < x.shape.getD ax 0 * c.numVectors := by
+      have := valid_getD hv (a := ax) (by simpa using hax)
+      rwa [ofFn_shape, getD_set_eq, if_pos ⟨rfl, by simpa using hax⟩] at this
+    have ht' : idx.getD ta 0 < x.shape.getD ta 0 / c.numVectors := by
+      have := valid_getD hv (a := ta) (by simpa using hta)
+      rwa [ofFn_shape, getD_set_eq, if_neg (by intro h; exact hne h.1), getD_set_eq,
+        if_pos ⟨rfl, hta⟩, hfr] at this
+    have hvn : idx.getD ax 0 / x.shape.getD ax 0 < c.numVectors := Nat.div_lt_of_lt_mul hj
+    calc idx.getD ax 0 / x.shape.getD ax 0 + idx.getD ta 0 * c.numVectors
+        < (idx.getD ta 0 + 1) * c.numVectors := by rw [Nat.add_mul, Nat.one_mul]; omega
+      _ ≤ x.shape.getD ta 0 / c.numVectors * c.numVectors := Nat.mul_le_mul_right _ ht'
+
+/-- with a pad mode: `⌈T / n⌉` frames, which cover every input frame (nothing is dropped) and reach at most
+`n - 1` positions beyond the input -/
+theorem stack_pad (c : Stack α) (x out : Tensor α) (axis : Int) (ip : Bool) (hn : 1 ≤ c.numVectors)
+    (mode : PadMode α) (hpm : c.padMode = some mode) (h : c.apply x axis ip = .ok out) :
+    let ta := (c.timeAxis % (x.shape.length : Int)).toNat
+    let T := x.shape.getD ta 0
+    out.shape.getD ta 0 = (T + c.numVectors - 1) / c.numVectors ∧
+    T ≤ out.shape.getD ta 0 * c.numVectors ∧ out.shape.getD ta 0 * c.numVectors < T + c.numVectors := by
+  obtain ⟨hr, hne, rfl⟩ := Stack.apply_inv c x out axis ip hn h
+  intro ta T
+  have e1 : Stack.taOf c x = ta := rfl
+  simp only [e1] at *
+  have hta : ta < x.shape.length := emod_axis_lt _ hr
+  have hsh : ((x.shape.set ta (Stack.frames c T)).set (Stack.axOf x axis)
+      (x.shape.getD (Stack.axOf x axis) 0 * c.numVectors)).getD ta 0 = Stack.frames c T := by
+    rw [getD_set_eq, if_neg (by intro h; exact hne h.1), getD_set_eq, if_pos ⟨rfl, hta⟩]
+  show ((x.shape.set ta _).set _ _).getD ta 0 = _ ∧ T ≤ ((x.shape.set ta _).set _ _).getD ta 0 * _ ∧ ((x.shape.set ta _).set _ _).getD ta 0 * _ < _
+  rw [hsh]
+  exact Stack.frames_some_facts c T hn (by simp [hpm])
+
+/-- fewer frames than `num_vectors`: without a pad mode the result is empty (zero frames, no data); with
+one (and at least one frame) it is exactly one padded frame -/
+theorem stack_short (c : Stack α) (x out : Tensor α) (axis : Int) (ip : Bool) (hn : 1 ≤ c.numVectors)
+    (h : c.apply x axis ip = .ok out)
+    (hT : x.shape.getD (c.timeAxis % (x.shape.length : Int)).toNat 0 < c.numVectors) :
+    let ta := (c.timeAxis % (x.shape.length : Int)).toNat
+    (c.padMode = none → out.shape.getD ta 0 = 0 ∧ out.data = []) ∧
+    (c.padMode.isSome = true → 0 < x.shape.getD ta 0 → out.shape.getD ta 0 = 1) := by
+  obtain ⟨hr, hne, rfl⟩ := Stack.apply_inv c x out axis ip hn h
+  intro ta
+  have e1 : Stack.taOf c x = ta := rfl
+  simp only [e1] at *
+  have hta : ta < x.shape.length := emod_axis_lt _ hr
+  have hsh : ((x.shape.set ta (Stack.frames c (x.shape.getD ta 0))).set (Stack.axOf x axis)
+      (x.shape.getD (Stack.axOf x axis) 0 * c.numVectors)).getD ta 0 = Stack.frames c (x.shape.getD ta 0) := by
+    rw [getD_set_eq, if_neg (by intro h; exact hne h.1), getD_set_eq, if_pos ⟨rfl, hta⟩]
+  have hdiv : x.shape.getD ta 0 / c.numVectors = 0 := Nat.div_eq_of_lt hT
+  have hmod : x.shape.getD ta 0 % c.numVectors = x.shape.getD ta 0 := Nat.mod_eq_of_lt hT
+  constructor
+  · intro hpm
+    have hfr : Stack.frames c (x.shape.getD ta 0) = 0 := by
+      unfold Stack.frames
+      simp only [hpm, Option.isSome_none, Bool.false_eq_true, false_and, if_false]
+      exact hdiv
+    refine ⟨by show ((x.shape.set ta _).set _ _).getD ta 0 = 0; rw [hsh, hfr], ?_⟩
+    apply List.eq_nil_of_length_eq_zero
+    show (List.map _ (List.range (numel _))).length = 0
+    rw [List.length_map, List.length_range]
+    exact numel_eq_zero_of_getD _ ta (by simpa using hta) (by rw [hsh, hfr])
+  · intro hpm hpos
+    show ((x.shape.set ta _).set _ _).getD ta 0 = 1
+    rw [hsh]
+    unfold Stack.frames
+    rw [if_pos ⟨hpm, by omega⟩, hdiv]
+
+/-- exactly when and how `Stack.apply` raises: `ZeroDivisionError` for rank 0 (`axis % 0`),
+`RuntimeError` when `axis % ndim == time_axis % ndim` (always for rank 1); otherwise it returns -/
+theorem stack_error_iff (c : Stack α) (x : Tensor α) (axis : Int) (ip : Bool) (hn : 1 ≤ c.numVectors)
+    (e : Err) :
+    c.apply x axis ip = .error e ↔
+      (x.shape.length = 0 ∧ e = .zeroDivision) ∨
+      (x.shape.length ≠ 0 ∧
+        (axis % (x.shape.length : Int)).toNat = (c.timeAxis % (x.shape.length : Int)).toNat ∧ e = .runtime) :=
+  Stack.apply_error_iff c x axis ip hn e
+
+/-- Purity: the caller's array is unchanged and the returned values do not depend on `in_place`
+(value semantics; see `deltas_pure`) -/
+theorem stack_pure (c : Stack α) (x : Tensor α) (axis : Int) (inPlace : Bool) (hn : 1 ≤ c.numVectors) :
+    (Stack.applyIO c x axis inPlace).2 = x ∧
+    (Stack.applyIO c x axis inPlace).1 = (Stack.applyIO c x axis false).1 := by
+  refine ⟨rfl, ?_⟩
+  show c.apply x axis inPlace = c.apply x axis false
+  rw [stack_2d_eq_nd c x axis inPlace hn, stack_2d_eq_nd c x axis false hn]
+
+end StackProps
+
+/-! ## Examples: the hypotheses of every implication above are satisfiable on concrete, non-trivial
+instances (evaluated by the kernel on the same definitions the theorems are about, at `ℚ`) -/
+section Examples
+
+local instance : Inhabited ℚ := ⟨0⟩
+
+private def exX : Tensor ℚ := ⟨[2, 3], [1, 2, 4, 8, 16, 32]⟩
+private def exX3 : Tensor ℚ := ⟨[2, 1, 3], [1, 2, 4, 8, 16, 32]⟩
+private def exDc : Deltas ℚ :=
+  { numDeltas := 2, targetAxis := -1, concatenate := true, contextWindow := 1, padMode := .edge }
+private def exDs : Deltas ℚ :=
+  { numDeltas := 1, targetAxis := -3, concatenate := false, contextWindow := 2, padMode := .reflect }
+
+-- the filters: `W = 2` gives the familiar Kaldi / HTK regression window and its self-convolution
+example : Deltas.filt (α := ℚ) 2 1 = [-1/5, -1/10, 0, 1/10, 1/5] := by decide +kernel
+example : Kaldi.scales (α := ℚ) 2 2 = [1/25, 1/25, 1/100, -1/25, -1/10, -1/25, 1/100, 1/25, 1/25] := by
+  decide +kernel
+example : Deltas.filts (α := ℚ) 2 2 = [[1], [-1/5, -1/10, 0, 1/10, 1/5],
+    [1/25, 1/25, 1/100, -1/25, -1/10, -1/25, 1/100, 1/25, 1/25]] := by decide +kernel
+example : normZ (α := ℚ) 2 = 10 ∧ filtNum (α := ℚ) 2 2 = [4, 4, 1, -4, -10, -4, 1, 4, 4] := by decide +kernel
+
+-- `deltas_lane_value`: a 5-tap filter (`m = 2 ≥ 1`) on a lane shorter than the pad, edge mode
+example : (Deltas.filt (α := ℚ) 2 1).length = 2 * 2 + 1 ∧ (1 : Nat) ≤ 2 ∧
+    Deltas.delta1d (Deltas.filt (α := ℚ) 2 1) .edge id [1, 4, 9] = [19/10, 12/5, 21/10] := by decide +kernel
+-- `deltas_edge_eq_kaldi` on that lane (frame 2 < 3)
+example : (2 : Nat) < ([1, 4, 9] : List ℚ).length ∧
+    deltaValue (α := ℚ) 2 1 .edge [1, 4, 9] 2 = 21/10 ∧ Kaldi.process (α := ℚ) 2 1 [1, 4, 9] = [19/10, 12/5, 21/10] := by
+  decide +kernel
+
+-- `deltas_shape_concat` / `deltas_value_concat` / `deltas_block0_is_input_concat`:
+-- rank 2, filtered along axis 0, target_axis = -1, two delta orders
+example : exX.WF ∧ exX.shape.length ≠ 0 ∧ 0 < exDc.contextWindow ∧ exDc.concatenate = true ∧
+    exDc.apply exX 0 = .ok ⟨[2, 9], [1, 2, 4, 7/2, 7, 14, 7/4, 7/2, 7, 8, 16, 32, 7/2, 7, 14, -7/4, -7/2, -7]⟩ ∧
+    valid [2, 9] [1, 7] = true ∧ valid exX.shape [1, 2] = true := by decide +kernel
+
+-- `deltas_shape_stack` / `deltas_value_stack` / `deltas_block0_is_input_stack`:
+-- rank 3 with a singleton axis, negative axis and target_axis, reflect padding wider than the lane
+example : exX3.WF ∧ exX3.shape.length ≠ 0 ∧ 0 < exDs.contextWindow ∧ exDs.concatenate = false ∧
+    exDs.apply exX3 (-1) = .ok ⟨[2, 2, 1, 3], [1, 2, 4, 0, 3/10, 0, 8, 16, 32, 0, 12/5, 0]⟩ ∧
+    valid [2, 2, 1, 3] [1, 1, 0, 1] = true ∧ valid exX3.shape [1, 0, 2] = true := by decide +kernel
+
+-- `deltas_error_iff`: both error branches occur (empty filtered axis with a lane; target_axis out of range),
+-- and a constant pad mode on an empty filtered axis does not raise
+example : Deltas.padError { exDc with numDeltas := 1 } (⟨[0, 2], []⟩ : Tensor ℚ) 0 ∧
+    ({ exDc with numDeltas := 1 } : Deltas ℚ).apply ⟨[0, 2], []⟩ 0 = .error .value ∧
+    ({ exDc with targetAxis := 2 } : Deltas ℚ).apply exX 0 = .error .axisErr ∧
+    ({ exDc with padMode := .constant 0 0 } : Deltas ℚ).apply ⟨[0, 2], []⟩ 0 = .ok ⟨[0, 6], []⟩ := by
+  decide +kernel
+
+-- the padding modes, beyond one period
+example : (List.range 9).map (fun k => Model.ext 0 0 .reflect ([1, 2, 3] : List ℚ) ((k : Int) - 4))
+      = [1, 2, 3, 2, 1, 2, 3, 2, 1] ∧
+    (List.range 9).map (fun k => Model.ext 0 0 .symmetric ([1, 2, 3] : List ℚ) ((k : Int) - 4))
+      = [3, 3, 2, 1, 1, 2, 3, 3, 2] ∧
+    (List.range 9).map (fun k => Model.ext 0 0 .wrap ([1, 2, 3] : List ℚ) ((k : Int) - 4))
+      = [3, 1, 2, 3, 1, 2, 3, 1, 2] ∧
+    (List.range 7).map (fun k => Model.ext 0 0 (.constant 7 9) ([1, 2, 3] : List ℚ) ((k : Int) - 2))
+      = [7, 7, 1, 2, 3, 9, 9] ∧
+    (List.range 7).map (fun k => Model.ext 0 0 .edge ([1, 2, 3] : List ℚ) ((k : Int) - 2))
+      = [1, 1, 1, 2, 3, 3, 3] := by decide +kernel
+
+private def exS2 : Tensor ℚ := ⟨[2, 5], [0, 1, 2, 3, 4, 5, 6, 7, 8, 9]⟩
+private def exS3 : Tensor ℚ := ⟨[5, 1, 2], [0, 1, 2, 3, 4, 5, 6, 7, 8, 9]⟩
+private def exSt (n : Nat) (ta : Int) (pm : Option (PadMode ℚ)) : Stack ℚ :=
+  { numVectors := n, timeAxis := ta, padMode := pm }
+
+-- `stack_new_pos`
+example : ∃ c : Stack ℚ, Stack.new 3 (-1) none = .ok c ∧ c.numVectors = 3 := ⟨_, rfl, rfl⟩
+example : Stack.new (α := ℚ) 0 0 none = .error .value := rfl
+
+-- `stack_2d_eq_nd`, `stack_shape`, `stack_value`, `stack_pad`: rank 2, time_axis = 1, axis = -2, T = 5, n = 2,
+-- wrap padding; the 2-D branch (what `apply` takes) and the N-D branch give the same tensor
+example : exS2.WF ∧ 1 ≤ (exSt 2 1 (some .wrap)).numVectors ∧
+    (exSt 2 1 (some .wrap)).apply exS2 (-2) = .ok ⟨[4, 3], [0, 2, 4, 5, 7, 9, 1, 3, 0, 6, 8, 5]⟩ ∧
+    (exSt 2 1 (some .wrap)).applyNd exS2 (-2) = .ok ⟨[4, 3], [0, 2, 4, 5, 7, 9, 1, 3, 0, 6, 8, 5]⟩ ∧
+    valid [4, 3] [2, 2] = true := by decide +kernel
+-- `stack_2d_path_eq_nd_path`: its side conditions on that instance (ax = 0, ta = 1, nT = 3 frames of n = 2)
+example : exS2.shape.length = 2 ∧ (0 : Nat) < 2 ∧ (1 : Nat) < 2 ∧ (0 : Nat) ≠ 1 ∧ 1 ≤ 2 ∧
+    3 * 2 ≤ (exS2.padAxis 1 0 1 .wrap).shape.getD 1 0 := by decide +kernel
+
+-- `stack_drop`: rank 3 (N-D branch), T = 5, n = 2, no pad mode: 2 frames, frame 4 is dropped
+example : (exSt 2 0 none).padMode = none ∧
+    (exSt 2 0 none).apply exS3 (-1) true = .ok ⟨[2, 1, 4], [0, 1, 2, 3, 4, 5, 6, 7]⟩ := by decide +kernel
+
+-- `stack_short`: T = 3 < n = 4; nothing without padding, one padded frame with it (negative time_axis)
+example : (⟨[3, 2], [1, 2, 3, 4, 5, 6]⟩ : Tensor ℚ).shape.getD 0 0 < 4 ∧
+    (exSt 4 0 none).apply ⟨[3, 2], [1, 2, 3, 4, 5, 6]⟩ 1 = .ok ⟨[0, 8], []⟩ ∧
+    (exSt 4 (-2) (some .symmetric)).apply ⟨[3, 2], [1, 2, 3, 4, 5, 6]⟩ 1
+      = .ok ⟨[1, 8], [1, 2, 3, 4, 5, 6, 5, 6]⟩ := by decide +kernel
+
+-- `stack_error_iff`: rank 1 always collides, `axis % ndim` may collide with `time_axis`, rank 0 divides by zero
+example : (exSt 2 0 none).apply ⟨[3], [1, 2, 3]⟩ 0 = .error .runtime ∧
+    (exSt 2 0 none).apply ⟨[3, 2], [1, 2, 3, 4, 5, 6]⟩ 2 = .error .runtime ∧
+    (exSt 2 0 none).apply ⟨[], [1]⟩ 0 = .error .zeroDivision := by decide +kernel
+
+end Examples
 
 end PdsVerif.C15
